@@ -1888,6 +1888,69 @@ def c05_verify_deadline(ctx):
     return q.result()
 
 
+def c07_resend_lookup_key(ctx):
+    q = Q("c07_resend_lookup_key", ["Zeroconf::register_service (key of my_services)", "Zeroconf::exec_command_register_resend (look-up for the second announcement)",
+                                    "every site building Command::RegisterResend"],
+          "every explored path of register_service to the insert and of exec_command_register_resend to the look-up; every site that builds a RegisterResend command",
+          ["calls are opaque; value provenance only: which call produced the String used as key"])
+    known = None
+    # (1) the table's key discipline: register_service inserts under to_lowercase(get_fullname)
+    f = ctx.funcs[ctx.fn("::register_service")]
+    ex = Explorer(ctx.funcs, ctx.consts, stop_calls=("HashMap::<String, ServiceInfo>::insert",), max_paths=800)
+    lowered = None
+    for p in ex.explore(f.name):
+        if not p.outcome.startswith("stop:"):
+            continue
+        key = [e for e in p.events if e[0] == "call" and e[1].endswith("HashMap::<String, ServiceInfo>::insert")][-1][2][1]
+        prod = _producer(p, _deref_val(p, key) if isinstance(key, Ref) else key) or _producer(p, key)
+        lowered = bool(prod and prod[1].endswith("to_lowercase"))
+        break
+    if lowered is None:
+        q.unknown.append("register_service: insert into my_services not reached")
+        return q.result()
+    if not lowered:
+        q.unknown.append("register_service no longer keys my_services by the lower-cased name: the key discipline this query assumes changed")
+        return q.result()
+    # (2) the look-up of the second announcement
+    g = ctx.funcs[ctx.fn("::exec_command_register_resend")]
+    ex2 = Explorer(ctx.funcs, ctx.consts, stop_calls=("HashMap::<String, ServiceInfo>::get_mut", "HashMap::<String, ServiceInfo>::get"), max_paths=200)
+    look = None
+    for p in ex2.explore(g.name):
+        if not p.outcome.startswith("stop:"):
+            continue
+        key = [e for e in p.events if e[0] == "call" and "HashMap::<String, ServiceInfo>::get" in e[1]][-1][2][1]
+        v = _deref_val(p, key) if isinstance(key, Ref) else key
+        prod = _producer(p, v) if v is not None else None
+        look = bool(prod and prod[1].endswith("to_lowercase"))
+        break
+    if look is None:
+        q.unknown.append("exec_command_register_resend: look-up in my_services not reached")
+        return q.result()
+    # (3) or: every RegisterResend command already carries the lower-cased name
+    sites, lowered_sites = 0, 0
+    for name, fn in ctx.funcs.items():
+        if name.endswith("Command::RegisterResend"):
+            continue
+        for b, (stmts, term) in fn.blocks.items():
+            for x in stmts:
+                m = re.fullmatch(r"_\d+ = (?:service_daemon::)?Command::RegisterResend\((?:move|copy) (_\d+), .*\);", x)
+                if not m:
+                    continue
+                sites += 1
+                defs = [t for _, t in fn.blocks.values() if t.startswith(m.group(1) + " = ")]
+                if len(defs) == 1 and "to_lowercase(" in defs[0]:
+                    lowered_sites += 1
+    if sites == 0:
+        q.unknown.append("no site building Command::RegisterResend found")
+        return q.result()
+    q.nontrivial += 1
+    if not look and lowered_sites < sites:
+        q.fail.append(("the second announcement (RegisterResend) looks the service up under the name as registered, but my_services is keyed by the lower-cased name: "
+                       "a service whose instance name has an upper-case letter is announced once only",
+                       f"look-up key lower-cased: {look}; RegisterResend sites carrying a lower-cased name: {lowered_sites}/{sites}"))
+    return q.result()
+
+
 def c07_check_probing_paths(ctx):
     q = Q("c07_check_probing_paths", ["check_probing (one probe, first loop iteration)", "Probe::expired", "Probe::update_next_send"],
           "every path of one iteration of check_probing over an ARBITRARY probe (start_time, next_send < 2^62) and any now < 2^62",
@@ -1995,7 +2058,7 @@ SPECS = {
     "C10": [c10_update_ttl, c10_known_answer_filter, c10_suppressed_ptr_no_additionals],
     "C05": [c05_reset_restores, c05_verify_deadline, c05_verify_shortens_only, c05_evict_predicate, c05_removed_addr_key],
     "C18": [c18_affected_host_lowercase],
-    "C07": [c07_probe_clock, c07_reannounce_delay, c07_check_probing_paths],
+    "C07": [c07_probe_clock, c07_reannounce_delay, c07_check_probing_paths, c07_resend_lookup_key],
     "C12": [c12_poll_timeout, c12_ipcheck_rearm, c12_hostname_timeout_timer, c12_hostname_timeout_due, c12_response_record_timers, c12_rerun_has_timer, c12_probe_timers, c12_conflict_probe_timer, c12_tiebreak_retry_timer, c11_cache_flush_rule, c05_verify_deadline, c07_check_probing_paths],
     "C19": [c19_browse_backoff, c19_hostname_backoff, c19_resolve_retry, c19_initial_delay, c19_rerun_due, c19_browse_listener_gone],
     "C08": [c08_tiebreak_count_operands, c08_rename_by_record_kind, c08_answer_uses_resolved_host],
